@@ -20,31 +20,8 @@ theorem r_setOriginal_raises_iff (t : RT ℝ) (v : ℝ) : t.setOriginal v = none
 /-- original → transformed → original is the identity (both orientations) -/
 theorem r_roundtrip (t : RT ℝ) (hs : t.scale = 1) (v : ℝ) (hv : t.Inside v) :
     ∃ t', t.setOriginal v = some t' ∧ t'.getOriginal = v ∧
-      t'.scale = t.scale ∧ t'.bound = t.bound ∧ t'.positive = t.positive := by
-  rw [RT.setOriginal_real]
-  unfold RT.Inside at hv
-  cases hp : t.positive <;> simp only [hp, if_true, if_false, Bool.false_eq_true] at hv ⊢
-  · -- ]-inf, b[
-    rw [if_neg (not_le.mpr hv)]
-    refine ⟨_, rfl, ?_, rfl, rfl, rfl⟩
-    rw [RT.getOriginal_real]; simp only [hp, hs, RT.fwdR, if_false, Bool.false_eq_true]
-    split_ifs with h1 h2 h2
-    · rw [Real.exp_log (by linarith)]; ring
-    · exfalso
-      have : Real.log (-1 * (v - t.bound)) < 0 := Real.log_neg (by linarith) (by linarith)
-      exact h2 this
-    · exfalso; linarith
-    · ring
-  · rw [if_neg (not_le.mpr hv)]
-    refine ⟨_, rfl, ?_, rfl, rfl, rfl⟩
-    rw [RT.getOriginal_real]; simp only [hp, hs, RT.fwdR, if_true]
-    split_ifs with h1 h2 h2
-    · rw [Real.exp_log (by linarith)]; ring
-    · exfalso
-      have : Real.log (1 * (v - t.bound)) < 0 := Real.log_neg (by linarith) (by linarith)
-      exact h2 this
-    · exfalso; linarith
-    · ring
+      t'.scale = t.scale ∧ t'.bound = t.bound ∧ t'.positive = t.positive :=
+  Bpp.C11aux.r_roundtrip t hs v hv
 
 /-- transformed → original → transformed is the identity (both orientations) -/
 theorem r_roundtrip_coord (t : RT ℝ) (hs : t.scale = 1) : t.setOriginal t.getOriginal = some t := by
@@ -79,23 +56,8 @@ theorem r_roundtrip_coord (t : RT ℝ) (hs : t.scale = 1) : t.setOriginal t.getO
       cases t; simp_all
 
 /-- every real coordinate back-transforms to a value strictly inside the half-line (any positive scale) -/
-theorem r_back_in_domain (t : RT ℝ) (hs : 0 < t.scale) : t.Inside t.getOriginal := by
-  unfold RT.Inside
-  rw [RT.getOriginal_real]
-  have he := Real.exp_pos t.x
-  cases t.positive <;> simp only [if_true, if_false, Bool.false_eq_true]
-  · split_ifs with hx
-    · have : 0 < Real.exp t.x / t.scale := div_pos he hs
-      have e : -Real.exp t.x / t.scale = -(Real.exp t.x / t.scale) := by ring
-      rw [e]; linarith
-    · have : 0 ≤ t.x / t.scale := div_nonneg (not_lt.mp hx) hs.le
-      have e : -t.x / t.scale = -(t.x / t.scale) := by ring
-      rw [e]; linarith
-  · split_ifs with hx
-    · have : 0 < Real.exp t.x / t.scale := div_pos he hs
-      linarith
-    · have : 0 ≤ t.x / t.scale := div_nonneg (not_lt.mp hx) hs.le
-      linarith
+theorem r_back_in_domain (t : RT ℝ) (hs : 0 < t.scale) : t.Inside t.getOriginal :=
+  Bpp.C11aux.r_inside t hs
 
 /-- the back-transformation is strictly increasing for `]b,+inf[` and strictly decreasing for
 `]-inf,b[` (the mirror image) -/
